@@ -556,7 +556,7 @@ func checkCommentPresence(c *Ctx, rule string) {
 }
 
 // R14h: a result cursor is closed on every path.
-const ruleTextRowsClosed = "result cursors are closed on every path: in the SQLite driver (one connection; an open cursor keeps the database locked) every function that owns a *sql.Rows — received as a parameter or obtained from Query/QueryContext and not handed on — defers rows.Close() before it can return, so a failing inspection does not leave a cursor open that makes the deferred restore of the dev database fail with `database is locked`"
+const ruleTextRowsClosed = "result cursors are closed on every path: in the SQLite driver (one connection; an open cursor keeps the database locked) every *sql.Rows obtained from a query is, on every CFG path from the acquisition to a return (the edge on which the query itself failed or the cursor is nil excepted), closed directly, by a registered `defer rows.Close()`, or by being handed to a function that closes its parameter on all of its paths (callee summaries, depth 3; e.g. sqlx.ScanOne); so a failing inspection cannot leave a cursor open that makes the deferred restore of the dev database fail with `database is locked`"
 
 func checkRowsClosed(c *Ctx, rule string) {
 	n := 0
